@@ -1,10 +1,10 @@
 """C04 — any received bytes give a result or a documented exception, never a crash/hang."""
 import signal
 
-from .. import core
+from .. import core, extract
 from ..core import Suite
 
-LEAN_TARGETS = ['Uds.Props.C04']
+LEAN_TARGETS = ['Uds.Props.C04', 'Uds.Tie.Groups']
 ASSUMPTIONS = [
     'the client configuration is itself valid (dtc_snapshot_did_size in 1..8, extended_data_size given and in range, IO / DID entries well formed); user codecs decode any byte string of their length',
     'documented outcomes: a returned response, NegativeResponse / InvalidResponse / UnexpectedResponse / Timeout exceptions, ConfigError, NotImplementedError (fields wider than 64 bits)',
@@ -20,6 +20,11 @@ DOCUMENTED = ('ok', 'none', 'negative', 'invalid', 'unexpected', 'timeout', 'con
 class Hang(Exception):
     pass
 
+
+
+def generate(ctx):
+    from .. import extract
+    extract.generate(['Groups'])
 
 def _alarm(*a):
     raise Hang()
